@@ -125,9 +125,14 @@ def o_twins(ctx, mod, shards):
         lst = by[v]
         t = json.loads(json.dumps(lst[(ctx.seed + n) % len(lst)]))
         t["pyflags"] = (["-O"] if (ctx.seed + n) % 3 else ["-OO"]) + ["-b"]
-        t["label"] = t.get("label", "") + ":" + "".join(t["pyflags"])
+        t["vendored"] = True
+        t["label"] = t.get("label", "") + ":" + "".join(t["pyflags"]) + ":vendored"
         out.append(t)
     return out
+
+
+def _mode(shard):
+    return " ".join(shard.get("pyflags", []) + (["vendored-copy"] if shard.get("vendored") else []))
 
 
 def load_known(prop):
@@ -278,8 +283,7 @@ def _check(ctx, mod, replay_shard):
                 "counters": {k: counters[k] for k in sorted(counters)},
                 "features": {k: features[k] for k in sorted(features)},
                 "shards": len(results),
-                "shards_by_interpreter_mode": {m: sum(1 for s_ in shards if " ".join(s_.get("pyflags", [])) == m)
-                                               for m in sorted(set(" ".join(s_.get("pyflags", [])) for s_ in shards))},
+                "shards_by_interpreter_mode": {m or "default": sum(1 for s_ in shards if _mode(s_) == m) for m in sorted(set(_mode(s_) for s_ in shards))},
                 "slowest_cases_s": sorted(slow_cases, reverse=True)[:6],
                 "shard_wall_s_max": round(max([r["wall"] for r in results] or [0]), 1),
                 "shard_wall_s_sum": round(sum(r["wall"] for r in results), 1),
@@ -353,12 +357,17 @@ def replay(path):
     v = json.load(open(path))
     prop = v["prop"]
     mod = importlib.import_module("props." + prop.lower())
-    if hasattr(mod, "replay_shard"):
+    if v.get("monitor") == "import":
+        shard = {"interp": v["interp"], "cases": [], "specs": [], "label": "replay", "tier": "quick", "seed": 0}
+    elif hasattr(mod, "replay_shard"):
         shard = mod.replay_shard(v)
     else:
         shard = {"interp": v["interp"], "cases": [v["case"]], "label": "replay", "tier": "quick", "seed": 0}
     if v.get("pyflags") and not shard.get("pyflags"):
-        shard["pyflags"] = v["pyflags"]          # the violation was observed in a `python -O` worker
+        # the violation was observed in an interpreter-mode twin (python -O / -b, library imported as a vendored copy)
+        shard["pyflags"] = [f for f in v["pyflags"] if f.startswith("-")]
+        if "vendored-copy" in v["pyflags"]:
+            shard["vendored"] = True
     rc = check(prop, "quick", int(os.environ.get("VERIF_SEED", "0")), replay_shard=shard)
     return rc
 
